@@ -85,11 +85,19 @@ Print Assumptions c04_seed_of_worker_schedule_independent.
    = i-th draw, records gathered in chunk order) -- provided the gathered records have distinct
    cell ids.  (Proof: the verdict of the loop does not depend on the seed stream or the log, clean
    workers give a clean drain for every bound, the seeds are fixed at dispatch, re_order_blob of a
-   permutation.) *)
+   permutation.)
+   Hypothesis 1 <= c (audit 3, item 13): chunk_size 0 is excluded.  There `chunks n 0 = []` and
+   the former statement held as None = None, whereas the real row iterator never terminates -
+   run here on a 5 x 3 h5ad: `for chunk in AnnDataRowIterator(h5ad_path=p, row_chunk_size=0,
+   layer='X', tmp_dir=...)` was stopped after 50 chunks, every one of them
+   (array of shape (0, 3), r0 = 0, r1 = 0); with row_chunk_size=2 the chunks are (0,2) (2,4)
+   (4,5) as in `chunks 5 2`.  The proof does not use the hypothesis, the FAITHFULNESS of `chunks`
+   does; the correspondence checks (harness/props/c04.py, c14.py) only pass chunk sizes >= 1
+   (ctx.assumptions).  c04_example_mapping_result: c = 2 satisfies it. *)
 Theorem c04_same_chunks_same_result :
   forall (A S : Type) (draw : S -> Z * S) (work_rows : nat -> nat -> Z -> list (record A))
          (cell_order : list Z) (s : S) (n p1 p2 c : nat) (W1 W2 : world) (s1 s2 : list nat),
-  (1 <= p1)%nat -> (1 <= p2)%nat ->
+  (1 <= p1)%nat -> (1 <= p2)%nat -> (1 <= c)%nat ->
   eff_chunk n p1 c = eff_chunk n p2 c ->
   let cs := eff_chunk n p1 c in
   let k := length (chunks n cs) in
@@ -130,14 +138,28 @@ Theorem c04_stats_buffer_order_is_dispatch_order : forall (variant : bool) (W : 
 Proof. exact starts_are_dispatch_order. Qed.
 Print Assumptions c04_stats_buffer_order_is_dispatch_order.
 
-(* ... hence after a clean drain the partial sums are added in dispatch order (`add` is any
-   operation: float addition is not associative), whatever the schedule and the bound *)
+(* ... hence, for a FIXED work split - ONE worker count n, the k work units it induces and their
+   partial sums `partial` - the merged result does not depend on the schedule: after a clean
+   drain the partial sums are added in dispatch order (`add` is any operation: float addition is
+   not associative) in any two worlds W1 W2, i.e. under any two completion orders and timings.
+   Audit 3, item 13: the former statement quantified two worker counts n1 n2 with k and partial
+   shared.  In the real _precompute_summary_stats_from_h5ad_and_lookup n_processors determines
+   the split (n_per = ceil(n_cells / n_processors), one work unit per worker), hence k AND the
+   partial sums: a different n_processors gives a different split, and the auditor observed the
+   real sums for 2, 3 and 4 workers to be bitwise different.  That is NOT a violation of C04
+   ("results depend only on inputs and seed, never on scheduling": the worker count is
+   configuration, not scheduling; C04's worker-count clause speaks of the mappings) nor of C09,
+   whose text is "the values (counts exactly, sums to rounding) do not depend on how cells are
+   spread over ... chunks or workers": across worker counts the sums are equal to rounding only,
+   and that is C09's statement (checked there), not this theorem's.  What C04 requires of the
+   statistics - same n_processors, any schedule, bitwise the same file - is this statement plus
+   the bitwise runs of harness/props/c04.py. *)
 Theorem c04_stats_merge_order_fixed :
-  forall (A : Type) (add : A -> A -> A) (zero : A) (partial : nat -> A) (W1 W2 : world) (n1 n2 k : nat),
-  (1 <= n1)%nat -> (1 <= n2)%nat ->
+  forall (A : Type) (add : A -> A -> A) (zero : A) (partial : nat -> A) (W1 W2 : world) (n k : nat),
+  (1 <= n)%nat ->
   (forall w, (w < k)%nat -> code W1 w = 0%Z) -> (forall w, (w < k)%nat -> code W2 w = 0%Z) ->
-  stats_result A add zero partial W1 n1 k = Some (merge_stats A add zero partial k) /\
-  stats_result A add zero partial W2 n2 k = stats_result A add zero partial W1 n1 k.
+  stats_result A add zero partial W1 n k = Some (merge_stats A add zero partial k) /\
+  stats_result A add zero partial W2 n k = stats_result A add zero partial W1 n k.
 Proof. exact stats_merge_order_fixed. Qed.
 Print Assumptions c04_stats_merge_order_fixed.
 
@@ -321,7 +343,10 @@ Example c04_example_stats_order :
   let W := {| code := fun _ => 0%Z; dur := fun w => (5 - 2 * w)%nat |} in
   snd (run_pool_list W 2 3) = [EStart 0; EStart 1; EPop 1; EStart 2; EPop 0; EPop 2]%nat /\
   starts (snd (run_pool_list W 2 3)) = [0; 1; 2]%nat /\
-  stats_result (list Z) (@app Z) [] (fun i => [Z.of_nat i]) W 2 3 = Some [0; 1; 2]%Z.
+  stats_result (list Z) (@app Z) [] (fun i => [Z.of_nat i]) W 2 3 = Some [0; 1; 2]%Z /\
+  (* a second schedule of the same split (worker 0 finishes first): the same merge *)
+  stats_result (list Z) (@app Z) [] (fun i => [Z.of_nat i])
+               {| code := fun _ => 0%Z; dur := fun w => (1 + 2 * w)%nat |} 2 3 = Some [0; 1; 2]%Z.
 Proof. vm_compute. repeat split; reflexivity. Qed.
 
 Example c04_example_seeds :
